@@ -234,6 +234,16 @@ func Carriers() []Carrier {
 						})
 					}
 				}
+				// a document that already produces a WARNING in an earlier phase (a numeric keyword on a string parameter, a property
+				// both required and readOnly): warnings never stop a validation, the value is judged all the same
+				add("definition-with-early-warning", "W", what, false, cs.schema, val, acc, func(js M) (M, func(M) M) {
+					d := baseCarrierDoc()
+					d["paths"].(M)["/p"].(M)["post"].(M)["parameters"] = []interface{}{M{"name": "w", "in": "query", "type": "string", "maximum": 5}}
+					d["definitions"].(M)["W"] = M{"type": "object", "required": []interface{}{"ro"}, "properties": M{"ro": M{"type": "string", "readOnly": true}, "v": js}}
+					d["paths"].(M)["/p"].(M)["post"].(M)["responses"].(M)["200"].(M)["schema"] = M{"$ref": "#/definitions/W"}
+					vp = []string{"definitions.W", "definitions.W.v"}
+					return d, func(t M) M { return t["definitions"].(M)["W"].(M)["properties"].(M)["v"].(M) }
+				})
 				add("response-schema-property", "default", what, false, cs.schema, val, acc, func(js M) (M, func(M) M) {
 					d := baseCarrierDoc()
 					d["paths"].(M)["/p"].(M)["post"].(M)["responses"].(M)["default"] = M{"description": "d", "schema": M{"type": "object", "properties": M{"x": js}}}
